@@ -1,59 +1,11 @@
 -------------------------------- MODULE Kmp --------------------------------
-(* Streaming substring matcher (texcraft-stdext algorithms::substringsearch), *)
-(* used by macro parameter matching (C02) to find delimiters.               *)
-(*                                                                          *)
-(* Reference layer: MatchEnds(p, t) -- the positions i of t at which an     *)
-(* occurrence of p ends (overlaps included).                                *)
-(* Implementation layer: the prefix function built by Matcher::new and the  *)
-(* state q of Search::next, fed one character at a time.                    *)
-EXTENDS Naturals, Sequences, FiniteSets
+(* The streaming matcher as a state machine fed one character at a time;     *)
+(* operators (reference MatchEnds, prefix function, Search::next) are in     *)
+(* KmpOps so that TexMacro can reuse them.                                   *)
+EXTENDS KmpOps
 
-CONSTANTS Sigma, MaxP, MaxT, Bug
+CONSTANTS Sigma, MaxP, MaxT
 
-------------------------------------------------------------------------------
-(* reference *)
-SuffixOf(s, t) == Len(s) <= Len(t) /\ SubSeq(t, Len(t) - Len(s) + 1, Len(t)) = s
-Prefix(p, n) == SubSeq(p, 1, n)
-
-MatchEnds(p, t) == { i \in 1..Len(t) : i >= Len(p) /\ SubSeq(t, i - Len(p) + 1, i) = p }
-
-\* longest proper border of p[1..n]
-Border(p, n) == CHOOSE k \in 0..(n - 1) :
-                  /\ Prefix(p, k) = SubSeq(p, n - k + 1, n)
-                  /\ \A j \in (k + 1)..(n - 1) : Prefix(p, j) # SubSeq(p, n - j + 1, n)
-
-\* longest prefix of p, shorter than p, that is a suffix of t
-Overlap(p, t) == CHOOSE k \in 0..(Len(p) - 1) :
-                   /\ SuffixOf(Prefix(p, k), t)
-                   /\ \A j \in (k + 1)..(Len(p) - 1) : ~SuffixOf(Prefix(p, j), t)
-
-------------------------------------------------------------------------------
-(* implementation: Matcher::new.  pf[i] is prefix_fn[i-1] of the Rust code *)
-RECURSIVE FallNew(_, _, _, _)
-FallNew(p, pf, k, i) == IF k > 0 /\ p[k + 1] # p[i] THEN FallNew(p, pf, pf[k], i) ELSE k
-
-RECURSIVE Build(_, _, _, _)
-Build(p, pf, k, i) ==       \* i = 1-based index of the character being added
-  IF i > Len(p) THEN pf
-  ELSE LET k1 == FallNew(p, pf, k, i)
-           k2 == IF p[k1 + 1] = p[i] THEN k1 + 1 ELSE k1
-       IN Build(p, Append(pf, k2), k2, i + 1)
-
-PrefixFn(p) == Build(p, <<0>>, 0, 2)
-
-(* Search::next *)
-RECURSIVE Fall(_, _, _, _)
-Fall(p, pf, q, c) == IF q > 0 /\ p[q + 1] # c
-                     THEN Fall(p, pf, IF Bug = "FallbackQ" THEN (IF q > 1 THEN pf[q - 1] ELSE 0) ELSE pf[q], c)
-                     ELSE q
-
-StepQ(p, pf, q, c) ==
-  LET q1 == Fall(p, pf, q, c)
-      q2 == IF p[q1 + 1] = c THEN q1 + 1 ELSE q1
-  IN IF q2 = Len(p) THEN [q |-> IF Bug = "NoOverlap" THEN 0 ELSE pf[q2], hit |-> TRUE]
-                    ELSE [q |-> q2, hit |-> FALSE]
-
-------------------------------------------------------------------------------
 VARIABLES p, txt, q, hit
 vars == <<p, txt, q, hit>>
 
